@@ -349,9 +349,6 @@ int janet_fiber_funcframe_tail(JanetFiber *fiber, JanetFunction *func) {
 #endif
     }
 
-    Janet *stack = fiber->data + fiber->frame;
-    Janet *args = fiber->data + fiber->stackstart;
-
     /* Detach old function */
     if (NULL != janet_fiber_frame(fiber)->func)
         janet_env_detach(janet_fiber_frame(fiber)->env);
@@ -381,6 +378,9 @@ int janet_fiber_funcframe_tail(JanetFiber *fiber, JanetFunction *func) {
         stacksize = fiber->stacktop - fiber->stackstart;
     }
 
+    /* Take the addresses only now: padding the optional parameters above may have moved the stack */
+    Janet *stack = fiber->data + fiber->frame;
+    Janet *args = fiber->data + fiber->stackstart;
     if (stacksize) memmove(stack, args, stacksize * sizeof(Janet));
 
     /* Nil unset locals (Needed for functional correctness) */
